@@ -13,6 +13,9 @@
 #ifndef NALLOC
 #define NALLOC 0
 #endif
+#ifndef SLACK
+#define SLACK 3
+#endif
 
 const cJSON *credentials_ok(const char *u, char *p) { (void)u; (void)p; return 0; }
 cJSON *change_password(const struct peer *p, const cJSON *r, const char *u, char *pw) { (void)p; (void)r; (void)u; (void)pw; return 0; }
@@ -93,9 +96,10 @@ void harness_alloc_failure(void)
 #else
 	if (!verif_alloc_failed) CHECK(answers == 1 && resp && resp->has_result, "C15.request_succeeds_without_failure");
 #endif
-	/* self-check of the enumeration: a refactoring that changes the number of allocations makes this obligation stale
-	   (reported as a broken check, not as a violation) */
-	__CPROVER_assert(verif_alloc_failed == (KBASE < NALLOC), "META.failure_injected_as_planned");
+	/* self-check of the enumeration: obligations exist for the attempts 0 .. NALLOC+SLACK (NALLOC = attempts of the
+	   fault-free request on the tree the table was measured on). A tree whose request allocates up to SLACK times more is
+	   still covered attempt by attempt; beyond that the enumeration is stale (reported as a broken check, not a violation) */
+	if (!verif_alloc_failed) __CPROVER_assert(verif_alloc_calls <= NALLOC + SLACK, "META.enumeration_covers_every_allocation_attempt");
 	struct element *e = element_table_get("a");
 #if STEP == 0
 	if (resp && resp->is_error) CHECK(e == 0, "C15.add_answered_with_error_created_nothing");
